@@ -120,12 +120,12 @@ theorem buildJob_need (E : Engine) (d : Defects) (cx : Ctx) (fuel t : Nat) (w : 
   RedoModel.Deps.buildJob_need E d cx fuel t w ts hno hd1 hd2 hs
 
 theorem oob_first_phase_fails (E : Engine) (cx : Ctx) (t : Nat) (ts : List Nat) (w : World) (rv : Status) (w2 : World)
-    (h1 : E.ifchangeCmd (oobCx1 cx) (oobOrder w ts) w = (rv, w2)) (hrv : rv ≠ 0) :
+    (h1 : E.ifchangeCmd (oobCx1 cx t) (oobOrder w ts) w = (rv, w2)) (hrv : rv ≠ 0) :
     oobPath E cx t ts w = (.done rv, w2) :=
   oobPath_first_fails E cx t ts w rv w2 h1 hrv
 
 theorem oob_second_phase_decides (E : Engine) (cx : Ctx) (t : Nat) (ts : List Nat) (w : World) (w2 : World)
-    (h1 : E.ifchangeCmd (oobCx1 cx) (oobOrder w ts) w = (0, w2)) :
+    (h1 : E.ifchangeCmd (oobCx1 cx t) (oobOrder w ts) w = (0, w2)) :
     oobPath E cx t ts w = (.done (E.ifchangeCmd (oobCx2 cx) [t] w2).1, (E.ifchangeCmd (oobCx2 cx) [t] w2).2) :=
   oobPath_first_ok E cx t ts w w2 h1
 
@@ -136,7 +136,7 @@ theorem need_then_recheck (d : Defects) (n : Nat) (hn : 0 < n) (cx : Ctx) (fuel 
     (ts : List Nat) (w2 : World)
     (hno : cx.noOob = false) (hd1 : d.oobRecordsDepsOnCaller = false) (hd2 : d.oobRebuildsDepsNotTarget = false)
     (hs : (shouldBuild cx fuel t w).1 = some (.need ts))
-    (h1 : (engine d (n + 1)).ifchangeCmd (oobCx1 cx) (oobOrder (shouldBuild cx fuel t w).2 ts)
+    (h1 : (engine d (n + 1)).ifchangeCmd (oobCx1 cx t) (oobOrder (shouldBuild cx fuel t w).2 ts)
       (shouldBuild cx fuel t w).2 = (0, w2))
     (hR : cx.runid ≠ 0) (ht : t ≠ alwaysId) (hcur : CurrentBefore w2 cx.runid t)
     (hq : ∀ d0 ∈ w2.deps, d0.target = t → QuietDep w2 t d0 ∨ MemoDep w2 cx.runid t d0) :
@@ -151,7 +151,7 @@ theorem need_then_recheck_forwards (d : Defects) (n : Nat) (cx : Ctx) (fuel t : 
     (ts : List Nat) (w2 : World)
     (hno : cx.noOob = false) (hd1 : d.oobRecordsDepsOnCaller = false) (hd2 : d.oobRebuildsDepsNotTarget = false)
     (hs : (shouldBuild cx fuel t w).1 = some (.need ts))
-    (h1 : (engine d (n + 2)).ifchangeCmd (oobCx1 cx) (oobOrder (shouldBuild cx fuel t w).2 ts)
+    (h1 : (engine d (n + 2)).ifchangeCmd (oobCx1 cx t) (oobOrder (shouldBuild cx fuel t w).2 ts)
       (shouldBuild cx fuel t w).2 = (0, w2))
     (ht : t ≠ alwaysId) (hcur : CurrentBefore w2 cx.runid t)
     (d0 : Dep) (hd : d0 ∈ w2.deps) (hdt : d0.target = t) (hfire : ChangedDep w2 t d0)
